@@ -65,7 +65,8 @@ def cases(tier, seed):
 def rand_map(rng, oids, d):
     m = {}
     for o in oids:
-        m[o] = np.identity(d) if o == OID_ID else rng.standard_normal((d, d)) + 1j * rng.standard_normal((d, d))
+        # every operator has its own entry kind (real operators next to complex ones)
+        m[o] = np.identity(d) if o == OID_ID else (rng.standard_normal((d, d)) + 1j * rng.standard_normal((d, d)) if rng.random() < 0.5 else rng.standard_normal((d, d)))
     return m
 
 
@@ -115,6 +116,16 @@ def run_case(c):
 
     kind = c['kind']
     if kind in ('tree', 'trees'):
+        # constructors: two nodes built from the same caller-owned list of children, then one of them is extended
+        try:
+            from pytenet.optree import OpTreeNode, OpTreeEdge
+            kids = [OpTreeEdge(1, 1.0, OpTreeNode([], 0))]
+            n1, n2 = OpTreeNode(kids, 0), OpTreeNode(kids, 0)
+            n1.add_child(OpTreeEdge(2, 0.5, OpTreeNode([], 0)))
+            if len(kids) != 1 or len(n2.children) != 1 or len(n1.children) != 2:
+                fail('OpTreeNode.__init__', 'shares_state', f'add_child on one node changed the caller\'s list ({len(kids)} entries) or a second node built from it ({len(n2.children)} children)')
+        except Exception as e:      # noqa: BLE001
+            fail('OpTreeNode.__init__', 'shares_state', f'two nodes built from the same list: {type(e).__name__}: {e}')
         L = c['L']
         key = json.dumps([kind, L, c['trees']])
         nontrivial = sum(len(hg._tree_paths(t[0])) for t in c['trees']) >= 2
